@@ -90,7 +90,9 @@ func cmdCheck(args []string) int {
 		return replayFile(*replay)
 	}
 	t0 := time.Now()
-	timeout := 10
+	// per-obligation solver budget (every claimed obligation discharges in a fraction of it on an idle machine; the
+	// margin is for loaded machines: a slow proof must not turn into an alarm)
+	timeout := 15
 	if *tier == "thorough" {
 		timeout = 40
 	}
